@@ -320,7 +320,7 @@ def run_case(case, seed=0, replay_dir=None, known=None):
             big = polys is not None and sum(len(d.d) for d in polys if isinstance(d, P)) > 150000
             if polys is not None and any(isinstance(d, P) for d in polys):
                 # the normal form of the difference is a non-zero polynomial: look for a point where it does not vanish
-                w = _sample_nonzero(polys, V, seed, pre=pre + side)
+                w = _sample_nonzero(polys, V, seed, pre=pre + side, case=case)
                 if w is not None:
                     r = dec.Result("sat", _FakeModel(w), 0.0, "non-zero normal form evaluated at a seeded rational point", len(allv))
             if r is None and big:
@@ -378,8 +378,14 @@ def run_case(case, seed=0, replay_dir=None, known=None):
             dis, side = qdom.diff_terms(lhs, rhs * 2 if hasattr(rhs, "__mul__") else rhs)
             if not dis:
                 continue
+            if twins["tried"] >= 8:
+                break
             twins["tried"] += 1
-            r = dec.decide(pre + side + [z3.Or(*dis)], timeout_ms=10000, seed=seed + 7, guided_first=True, tries=6,
+            polys2 = qdom.diff_polys(lhs, rhs * 2 if hasattr(rhs, "__mul__") else rhs)
+            if polys2 is not None and any(isinstance(d, P) for d in polys2) and _sample_nonzero(polys2, V, seed + 7, pre=pre + side, case=case) is not None:
+                twins["sat"] += 1  # a seeded rational point inside the precondition where lhs != 2 rhs
+                continue
+            r = dec.decide(pre + side + [z3.Or(*dis)], timeout_ms=10000, seed=seed + 7, guided_first=True, tries=3,
                            variables=list(V.vars.values()) + [z3.Real(n) for n in P_VARS.names if n.startswith("@")])
             if r.status == "sat":
                 twins["sat"] += 1
@@ -402,15 +408,27 @@ class _FakeModel:
         self.vals = vals
 
 
-def _sample_nonzero(polys, V, seed, tries=8, pre=()):
+def _sample_nonzero(polys, V, seed, tries=8, pre=(), case=None):
     import random
     rng = random.Random(seed + 991)
     names = P_VARS.names
-    for _ in range(tries):
+    for t_ in range(tries):
         point = {}
         vals = {}
+        drawn = {}
+        if case is not None and pre and t_ < tries // 2:
+            # the case's own generator of concrete instances knows where its precondition is easy to meet
+            try:
+                Vc = case.conc(seed + 7919 + t_)
+                case.inputs(Vc)
+                drawn = dict(Vc.values)
+            except Exception:
+                drawn = {}
         for i, n in enumerate(names):
-            v = Fraction(rng.randint(1, 5) if n.startswith("@") else rng.randint(-4, 4), rng.choice([1, 2, 3]))
+            if n in drawn:
+                v = Fraction(drawn[n])
+            else:
+                v = Fraction(rng.randint(1, 5) if n.startswith("@") else rng.randint(-4, 4), rng.choice([1, 2, 3]))
             if v == 0:
                 v = Fraction(1, 2)
             point[i] = v
